@@ -40,6 +40,9 @@ pub enum HookAction {
     /// Blank the i-th and the (i+1)-th qualifier (neighbours in key order).
     BlankAdjacentPair(usize),
     RemoveQualifier(usize),
+    /// Remove the i-th qualifier through another removal path: 0 `OccupiedEntry::remove`,
+    /// 1 `OccupiedEntry::remove_entry`, 2 `retain` returning false for it, 3 `retain_mut` likewise.
+    RemoveVia(u8, usize),
     ClearQualifiers,
     InsertChecksumWellFormed(String),
     InsertChecksumMalformed(String),
@@ -112,6 +115,7 @@ impl HookAction {
             HookAction::BlankAllQualifiers => "hook.blank_all_qualifiers",
             HookAction::BlankAdjacentPair(_) => "hook.blank_adjacent_pair",
             HookAction::RemoveQualifier(_) => "hook.remove_qualifier",
+            HookAction::RemoveVia(..) => "hook.remove_via_other_path",
             HookAction::ClearQualifiers => "hook.clear_qualifiers",
             HookAction::InsertChecksumWellFormed(_) => "hook.insert_checksum_well_formed",
             HookAction::InsertChecksumMalformed(_) => "hook.insert_checksum_malformed",
@@ -134,6 +138,7 @@ pub const ACTION_KINDS: &[&str] = &[
     "hook.blank_all_qualifiers",
     "hook.blank_adjacent_pair",
     "hook.remove_qualifier",
+    "hook.remove_via_other_path",
     "hook.clear_qualifiers",
     "hook.insert_checksum_well_formed",
     "hook.insert_checksum_malformed",
@@ -415,6 +420,26 @@ impl PurlShape for SimShape {
                         let key = parts.qualifiers.iter().nth(i % n).map(|(k, _)| k.as_str().to_owned());
                         if let Some(key) = key {
                             parts.qualifiers.remove(key);
+                        }
+                    }
+                },
+                HookAction::RemoveVia(path, i) => {
+                    let n = parts.qualifiers.len();
+                    if n > 0 {
+                        let key = parts.qualifiers.iter().nth(i % n).map(|(k, _)| k.as_str().to_owned()).unwrap_or_default();
+                        match path % 4 {
+                            0 => {
+                                if let Ok(purl::qualifiers::Entry::Occupied(o)) = parts.qualifiers.entry(key.as_str()) {
+                                    o.remove();
+                                }
+                            },
+                            1 => {
+                                if let Ok(purl::qualifiers::Entry::Occupied(o)) = parts.qualifiers.entry(key.as_str()) {
+                                    o.remove_entry();
+                                }
+                            },
+                            2 => parts.qualifiers.retain(|k, _| *k != key),
+                            _ => parts.qualifiers.retain_mut(|k, _| *k != key),
                         }
                     }
                 },
@@ -1028,6 +1053,7 @@ fn action_menu(rng: &mut Rng) -> Vec<HookAction> {
         HookAction::BlankAllQualifiers,
         HookAction::BlankAdjacentPair(rng.below(4)),
         HookAction::RemoveQualifier(rng.below(4)),
+        HookAction::RemoveVia(rng.below(4) as u8, rng.below(4)),
         HookAction::ClearQualifiers,
         HookAction::InsertChecksumWellFormed(gen::checksum_text(rng, true)),
         HookAction::InsertChecksumMalformed(gen::checksum_text(rng, false)),
@@ -1103,7 +1129,22 @@ impl Sim for C14 {
     fn generate(&self, seed: u64) -> Scenario {
         let mut rng = Rng::new(seed);
         let workload = match rng.below(11) {
-            10 => Workload::Deserialize { input: gen::any_input(&mut rng, false) },
+            10 => {
+                let mut input = gen::any_input(&mut rng, false);
+                // The serde entry point sees strings nobody trimmed: sometimes pad them.
+                if rng.chance(1, 4) {
+                    let pad = *rng.pick(&[" ", "\n", "\t", "\r\n", "\u{a0}", "\u{feff}"]);
+                    match rng.below(3) {
+                        0 => input.insert_str(0, pad),
+                        1 => input.push_str(pad),
+                        _ => {
+                            input.insert_str(0, pad);
+                            input.push_str(pad);
+                        },
+                    }
+                }
+                Workload::Deserialize { input }
+            },
             0..=5 => Workload::Parse { input: gen::any_input(&mut rng, false) },
             6..=7 => Workload::Build {
                 ty: gen::type_string(&mut rng, false).to_ascii_lowercase(),
